@@ -102,7 +102,7 @@ def placements(seed, d, tier):
 
 OPTS = {
     "cell": ["orth", "orthp", "orthz", "tri+", "tri-", "trip"],
-    "w": [0.25, 0.5, 0.3],
+    "w": [0.25, 0.5, 0.3, 0.27],  # 0.27: L_min/2/w = 14.8 (int() vs round() differ)
     "F": [1, 2, 3],
     "K": [1, 2],
 }
@@ -219,7 +219,7 @@ def subs(tier, seed):
                  "compared with the double-loop reference; non-trivial = populated bins >= 2 per column",
             bounds={"type_maps": 4683, "geometries": 1 if tier == "quick" else 8}),
         Sub("C03.geometry", gen_geometry, run,
-            rule="options {2D,3D} x {orth (x shortest), orthp (y shortest), orthz (z shortest), tri+, tri-, trip} x widths {0.25,0.5,0.3} x frames {1,2,3} x all masks x K {1,2}; "
+            rule="options {2D,3D} x {orth (x shortest), orthp (y shortest), orthz (z shortest), tri+, tri-, trip} x widths {0.25,0.5,0.3,0.27} x frames {1,2,3} x all masks x K {1,2}; "
                  + ("full product" if tier == "thorough" else "all option vectors with <= 2 deviations from (3D, orth, 0.25, F=1, K=1, ppp=1)")
                  + "; placements = all N-subsets (N=2..4) of a jittered 2^d lattice + exact lattice + cluster + ideal gas"
                  + (" + all 2-,3-subsets of a jittered 3^d lattice (default options)" if tier == "thorough" else ""),
